@@ -62,6 +62,24 @@ pub fn reserialise_oracle(b: &[u8], case: &mut Case) -> Result<bool, Fail> {
             }
         }
     }
+    // A serialisation that failed earlier on this thread (another packet into a slice that is too short, cut inside
+    // the RDATA of its record) must leave nothing behind that shows in the next one.
+    if b.len() % 4 == 1 {
+        case.class("after-a-failed-write");
+        let _ = lib("failed write first", || {
+            use simple_dns::rdata::{RData, TXT};
+            let mut other = simple_dns::Packet::new_reply(7);
+            let mut t = TXT::new();
+            let _ = t.add_string("poison=left-behind-by-a-failed-write");
+            other.answers.push(simple_dns::ResourceRecord::new(simple_dns::Name::new_unchecked("x.y"), simple_dns::CLASS::IN, 1, RData::TXT(t)));
+            for cut in [30usize, 35, 45] {
+                let mut small = vec![0u8; cut];
+                let _ = other.write_to(&mut &mut small[..]);
+                let mut cur = std::io::Cursor::new(&mut small[..]);
+                let _ = other.write_compressed_to(&mut cur);
+            }
+        })?;
+    }
     // (each form twice: a received packet that has been written once is written the same way again)
     for compressed in [false, true, false, true] {
         let what = if compressed { "build_bytes_vec_compressed" } else { "build_bytes_vec" };
